@@ -166,11 +166,11 @@ def apalache_attempt(ntasks, timeout):
 
 # ------------------------------------------------------------------------------------------------ case generation
 
-def gen_cfg(mode, n, max_edges, fail_kinds, dangling, max_br=0):
+def gen_cfg(mode, n, max_edges, fail_kinds, dangling, max_br=0, max_rerun=0):
     """branch-free families use spec/TMGen.tla, families with branches spec/TMGenB.tla (same growth + statically selecting branches)"""
     return ('CONSTANTS\n  Mode = "%s"\n  N = %d\n  MaxEdges = %d\n%s  FailKinds = {%s}\n  AllowDangling = %s\n'
             'SPECIFICATION Spec\nINVARIANT Emit\nCHECK_DEADLOCK FALSE\n' % (
-                mode, n, max_edges, "  MaxBr = %d\n" % max_br if max_br else "", ", ".join('"%s"' % k for k in fail_kinds),
+                mode, n, max_edges, "  MaxBr = %d\n" % max_br if max_br else "  MaxRerun = %d\n" % max_rerun, ", ".join('"%s"' % k for k in fail_kinds),
                 "TRUE" if dangling else "FALSE"))
 
 
@@ -179,7 +179,8 @@ def gen_graphs(families):
     def one(f):
         name, mode, n, me, fk, dang = f[:6]
         br = f[6] if len(f) > 6 else 0
-        return vlib.tlc("TMGenB" if br else "TMGen", "gen_%s.cfg" % name, files={"gen_%s.cfg" % name: gen_cfg(mode, n, me, fk, dang, br)},
+        rr = f[7] if len(f) > 7 else 0
+        return vlib.tlc("TMGenB" if br else "TMGen", "gen_%s.cfg" % name, files={"gen_%s.cfg" % name: gen_cfg(mode, n, me, fk, dang, br, rr)},
                         workers=2, timeout=900, heap="4g")
     with concurrent.futures.ThreadPoolExecutor(max_workers=JVMS) as ex:
         runs = list(ex.map(one, families))
@@ -198,7 +199,7 @@ def gen_graphs(families):
             g["probes"] = sorted(g["probes"])
             graphs.append(g)
             k += 1
-        stats.append({"family": f[0], "mode": f[1], "nodes": f[2], "max_edges": f[3], "fail_kinds": list(f[4]), "dangling": f[5], "max_branches": f[6] if len(f) > 6 else 0, "graphs": k,
+        stats.append({"family": f[0], "mode": f[1], "nodes": f[2], "max_edges": f[3], "fail_kinds": list(f[4]), "dangling": f[5], "max_branches": f[6] if len(f) > 6 else 0, "max_rerun": f[7] if len(f) > 7 else 0, "graphs": k,
                       "orders": sum(len(g["orders"]) for g in graphs if g["fam"] == f[0]),
                       "probes": sum(len(g["probes"]) for g in graphs if g["fam"] == f[0]), "tlc_distinct": r.distinct})
         log("  family %s: %d graphs, %d completion orders, %d probes (TLC %d distinct states, %.0fs)" % (
@@ -210,7 +211,7 @@ def order_cases(graphs):
     cases = []
     for gi, g in enumerate(graphs):
         base = {"grp": "g%d" % gi, "mode": g["mode"], "nodes": g["nodes"], "edges": g["edges"], "branches": g.get("branches", []),
-                "fail": g["fail"], "hook": False,
+                "fail": g["fail"], "rerun": g.get("rerun", []), "hook": False,
                 "call": "stream" if gi % 3 == 2 else "invoke"}           # every third graph is run through Stream()
         k = 0
         for o in g["orders"]:
@@ -554,12 +555,14 @@ def families_for(tier, rnd):
         return [("dag3", "dag", 3, 9, ("err", "panic"), False, 0), ("pregel3", "pregel", 3, 9, ("err",), False, 0),
                 ("wf3", "wf", 3, 9, ("err", "panic"), True, 0), ("pregel4", "pregel", 4, 14, (), False, 0),
                 ("dag4", "dag", 4, 14, (), False, 0), ("wf4", "wf", 4, 14, (), True, 0),
-                ("dag3b", "dag", 3, 5, (), False, 1), ("wf3b", "wf", 3, 5, (), True, 1)]
+                ("dag3b", "dag", 3, 5, (), False, 1), ("wf3b", "wf", 3, 5, (), True, 1),
+                ("dag3r", "dag", 3, 9, (), False, 0, 2), ("wf3r", "wf", 3, 9, (), True, 0, 2)]
     return [("dag3", "dag", 3, 9, ("err", "panic"), False, 0), ("pregel3", "pregel", 3, 9, ("err", "panic"), False, 0),
             ("wf3", "wf", 3, 9, ("err", "panic"), True, 0), ("pregel4", "pregel", 4, 14, ("err",), False, 0),
             ("dag4", "dag", 4, 14, ("err",), False, 0), ("wf4", "wf", 4, 14, ("panic",), True, 0),
             ("dag3b", "dag", 3, 9, ("err",), False, 1), ("wf3b", "wf", 3, 9, ("err",), True, 1),
-            ]
+            ("dag3r", "dag", 3, 9, (), False, 0, 3), ("wf3r", "wf", 3, 9, (), True, 0, 3), ("pregel3r", "pregel", 3, 9, (), False, 0, 2),
+            ("dag4r", "dag", 4, 14, (), False, 0, 1), ("wf4r", "wf", 4, 14, (), True, 0, 1)]
 
 
 def c03(tier, repo=None):
@@ -583,9 +586,11 @@ def c03(tier, repo=None):
         br = [g for g in graphs if g["fam"] in ("dag3b", "wf3b") and g.get("branches")]
         rnd.shuffle(big)
         rnd.shuffle(br)
-        graphs = small + big[:160] + br[:300]
+        rr = [g for g in graphs if g["fam"].endswith("r") and g.get("rerun")]          # all 3-node graphs x 1-2 rerun nodes
+        graphs = small + big[:160] + br[:300] + rr
         exhaustive = False
-    graphs = [g for g in graphs if g.get("branches") or not g["fam"].endswith("b")]      # branch families also grow the branch-free graphs again
+    graphs = [g for g in graphs if g.get("branches") or not g["fam"].endswith("b")]
+    graphs = [g for g in graphs if g.get("rerun") or not g["fam"].endswith("r")]        # rerun families: only the graphs with a rerun node      # branch families also grow the branch-free graphs again
     ocases = order_cases(graphs)
     scheds, sched_stats = gen_schedules(tier)
     hcases = hook_cases(tier, graphs, rnd) + sched_cases(tier, scheds, rnd)
